@@ -20,11 +20,14 @@
      state threaded.
    * [history_ok h] : every name and value is a string of octets (< 256) shorter than 2^24 and no
      block starts with a nameless item (for which the Rust code panics by design). *)
+From Coq Require Import String.
 From H2V Require Import Base.Tac Base.Bytes Model.Huffman Ref.Rfc7541Block Model.HpackEnc.
 From H2V Require Import Proofs.HpackEncProofs.
 Local Open Scope N_scope.
 
-(* Round trip, for every initial size, every history of size changes and header lists (any
+(* Round trip.  Both ends start from min(m0, 4096): Encoder::new caps the size it is given at
+   DEFAULT_MAX_ALLOWED_SIZE, and update_max_size caps every later value the same way.
+   For every initial size, every history of size changes and header lists (any
    names, values, repeats, sensitive values, pseudo headers, sizes from empty to larger than the
    table, table sizes including 0) and every integer-length limit L >= 4 of the decoder: the
    encoder does not fail, and the reference decoder accepts every block and returns exactly the
@@ -95,7 +98,7 @@ Theorem C10_reduction_signalled_nonvacuous :
   tinv (e_table st) /\ e_size_update st = None /\
   fold_left N.min (map (capv st) [4096]) (capv st 100) < et_max (e_table st) /\
   exists st2 out, enc_encode (fold_left enc_update_max_size [100; 4096] st)
-                             [FI (Some (HttpTokens.bstr "a")) (HttpTokens.bstr "b") false] = EOk (st2, out).
+                             [FI (Some (HttpTokens.bstr "a"%string)) (HttpTokens.bstr "b"%string) false] = EOk (st2, out).
 Proof. exact demo_reduction. Qed.
 
 (* A block split into HEADERS / CONTINUATION fragments at any offsets: the decoder's result is a
